@@ -115,7 +115,7 @@ pub enum Op {
     ReadChunks { r: u8, n: u8, c: Cancel },
     ReadExact { r: u8, len: u16, c: Cancel },
     ReadToEnd { r: u8, limit: u32, c: Cancel },
-    /// read until EOF or error; style 0 `read`, 1 `read_chunk`, 2 `read_chunks`
+    /// read until EOF or error; style 0 `read`, 1 `read_chunk`, 2 `read_chunks`, 3 tokio `AsyncRead::poll_read`
     ReadAll { r: u8, style: u8, piece: u16, c: Cancel },
     ReceivedReset { r: u8, c: Cancel },
     Stop { r: u8, code: u8 },
@@ -902,6 +902,7 @@ never_benign!(
     Result<Option<VarInt>, StoppedError>,
     Result<(), SendDatagramError>,
     Result<(), ConnectionError>,
+    Result<usize, std::io::Error>,
 );
 impl<T> Benign for Result<T, WriteError> {
     fn benign(&self) -> bool {
@@ -1493,6 +1494,39 @@ async fn do_read(ctx: &Ctx, h: &mut RecvH, style: u8, piece: usize, c: &Cancel) 
                 }
             }
         }
+        3 => {
+            // through the tokio `AsyncRead` adapter; end of stream is a read of zero bytes there
+            let mut buf = vec![0u8; piece];
+            let (out, p) = op_mut!(ctx, h.pend("read"), c, true, async {
+                let mut rb = tokio::io::ReadBuf::new(&mut buf);
+                let r = std::future::poll_fn(|cx| tokio::io::AsyncRead::poll_read(std::pin::Pin::new(&mut h.r), cx, &mut rb)).await;
+                r.map(|()| rb.filled().len())
+            });
+            match out {
+                Some(Ok(0)) => h.got_eof("read"),
+                Some(Ok(n)) => {
+                    if n > piece {
+                        ctx.fail("c18/integrity/read-count", format!("AsyncRead::poll_read into {piece} bytes filled {n}"));
+                        return false;
+                    }
+                    h.got_data("read", h.off, &buf[..n], true);
+                }
+                Some(Err(e)) => match e.get_ref().and_then(|x| x.downcast_ref::<ReadError>()) {
+                    Some(re) => {
+                        let re = re.clone();
+                        h.got_err(&re, &p, true)
+                    }
+                    None => {
+                        ctx.fail("c18/integrity/io-error", format!("AsyncRead::poll_read failed with an error that does not wrap a ReadError: {e:?}"));
+                        return false;
+                    }
+                },
+                None => {
+                    ctx.label("cancel-read");
+                    return false;
+                }
+            }
+        }
         _ => {
             let n = (piece % 4) + 1;
             let mut bufs = vec![Bytes::new(); n];
@@ -1745,7 +1779,20 @@ async fn exec_op(ctx: &Ctx, t: &mut Task, op: &Op) {
                         }
                     }
                 }
-                match h.s.finish() {
+                // odd selectors go through the tokio `AsyncWrite` adapter (`poll_shutdown`)
+                let res = if *s & 1 == 1 && !h.early {
+                    let mut cx = std::task::Context::from_waker(std::task::Waker::noop());
+                    match tokio::io::AsyncWrite::poll_shutdown(std::pin::Pin::new(&mut h.s), &mut cx) {
+                        std::task::Poll::Ready(r) => r.map_err(|_| ()),
+                        std::task::Poll::Pending => {
+                            ctx.fail("c18/integrity/shutdown-pending", "AsyncWrite::poll_shutdown returned Pending".to_string());
+                            return;
+                        }
+                    }
+                } else {
+                    h.s.finish().map_err(|_| ())
+                };
+                match res {
                     Ok(()) => {
                         h.finished = true;
                         let mut m = ctx.m.borrow_mut();
@@ -1885,7 +1932,7 @@ async fn exec_op(ctx: &Ctx, t: &mut Task, op: &Op) {
                 let mut n = 0;
                 let nc = no_cancel();
                 // a plan that abandons the read ends the loop
-                while do_read(ctx, h, *style % 3, (*piece).max(1) as usize, if n < 3 { c } else { &nc }).await {
+                while do_read(ctx, h, *style % 4, (*piece).max(1) as usize, if n < 3 { c } else { &nc }).await {
                     n += 1;
                 }
             }
@@ -3015,7 +3062,7 @@ fn arb_end_w() -> impl Strategy<Value = Vec<Op>> {
 
 fn arb_reads() -> impl Strategy<Value = Vec<Op>> {
     prop_oneof![
-        5 => (0u8..3, 1u16..6_000, arb_cancel()).prop_map(|(style, piece, c)| vec![Op::ReadAll { r: LAST, style, piece, c }]),
+        5 => (0u8..4, 1u16..6_000, arb_cancel()).prop_map(|(style, piece, c)| vec![Op::ReadAll { r: LAST, style, piece, c }]),
         1 => (1u32..40_000, arb_cancel()).prop_map(|(limit, c)| vec![Op::ReadToEnd { r: LAST, limit, c }]),
         // a received_reset() that is (usually) cancelled, followed by reads up to the end of the stream
         1 => (arb_cancel(), 0u8..3, 1u16..6_000).prop_map(|(c, style, piece)| vec![Op::ReceivedReset { r: LAST, c }, Op::ReadAll { r: LAST, style, piece, c: Cancel::default() }]),
